@@ -32,7 +32,7 @@ fn meta() -> Meta {
     Meta {
         id: "C05",
         level: "model_checking",
-        rule: "every word over {set_new_spec(s), parse_new_spec(t), push_temp_spec(s), parse_and_push_temp_spec(t), pop_temp_spec} with 5 well-formed specifications (distinct max levels, two differing only in the text filter) and 3 malformed texts, up to the depth bound; the implementation state after each operation is compared with a reference stack machine; states = distinct (active spec, saved stack) model states reached; non-trivial = word contains a push and a later pop, or a malformed argument",
+        rule: "every word over {set_new_spec(s), parse_new_spec(t), push_temp_spec(s), parse_and_push_temp_spec(t), pop_temp_spec} with 5 well-formed specifications (distinct max levels, two differing only in the text filter) and 3 malformed texts, up to the depth bound; the implementation state after each operation is compared with a reference stack machine; states = distinct (active spec, saved stack) model states reached; non-trivial = word contains a push and a later pop, or a malformed argument; plus one word of 24 nested pushes (with rejected malformed pushes in between) and their pops; RUST_LOG is set to another specification throughout",
         assumptions: vec![
             "one handle (the stack is per handle clone by design)".into(),
             "probe grid: 5 levels x 6 targets x 2 messages".into(),
@@ -309,7 +309,40 @@ fn judge(word: &[Op], widx: &[usize], tier: &str) -> (Option<Violation>, Option<
     }
 }
 
+/// A nesting far beyond the depth bound of the word enumeration: 24 pushes (alternating
+/// push_temp_spec / parse_and_push_temp_spec over the well-formed specifications, a rejected
+/// malformed push at every third level), then the pops - judged after every step like every
+/// other word.
+fn deep_word() -> Vec<Op> {
+    let mut w = Vec::new();
+    for i in 0..24 {
+        w.push(if i % 2 == 0 { Op::Push(i % 5) } else { Op::ParsePush(i % 5) });
+        if i % 3 == 2 {
+            w.push(Op::ParsePushBad(i % 3));
+        }
+    }
+    for _ in 0..24 {
+        w.push(Op::Pop);
+    }
+    w
+}
+
 fn run_unit(tier: &str, unit: usize, out: &mut Out) {
+    // the run-time changes take their argument, never the environment
+    std::env::set_var("RUST_LOG", "error");
+    if unit == 0 {
+        let alpha = alphabet();
+        let word = deep_word();
+        let widx: Vec<usize> = word.iter().filter_map(|o| alpha.iter().position(|a| a == o)).collect();
+        out.evaluations += 1;
+        out.transitions += word.len() as u64;
+        out.count("deep_nesting_words", 1);
+        if widx.len() == word.len() {
+            if let (Some(v), _) = judge(&word, &widx, tier) {
+                out.violation(v);
+            }
+        }
+    }
     let alpha = alphabet();
     let k = alpha.len();
     let d = depth(tier);
